@@ -1294,6 +1294,7 @@ class C15(DirectSpec):
         n = self.sizes[tier]
         fl = [(f"class.{c}.{dr}", 1, "input class x direction") for c in CLASSES for dr in ("min", "max")]
         fl += [("K_equals_1", n // 100, ">=1% of cases with K=1"), ("converged_populations", n // 20, ">=5% converged")]
+        fl += [("public_views_read_before_clustering", n // 10, "clusterings whose public views (distances, tree) were read before cluster()")]
         fl += [("product_n_times_truncation_factor_just_below_an_integer", n // 50, "population size x truncation factor a hair below an integer")]
         fl += [("C15.real_populations_checked", 20, "NBC generator calls on real populations re-derived with the reference")]
         return fl
